@@ -252,3 +252,76 @@ Example c18_return_nonvacuous :
     Ok (mkT [2; 3]%nat [55; 18; 5; 68; 22; 6]) /\
   ret_rec 3 [1; 3; 5] = [1 + 3 * (3 + 3 * (5 + 3 * 0)); 3 + 3 * (5 + 3 * 0); 5 + 3 * 0].
 Proof. split; [vm_compute; reflexivity|]. split; [vm_compute; reflexivity|]. reflexivity. Qed.
+
+(* ---- the tie to the source text (returns) --------------------------------------------------
+   PV.Gen.C18Src.tdr_body is regenerated from /repo/src/pydrobert/torch/_rl.py on every run
+   (harness/py2coq/translate.py: the body of `time_distributed_return`, node for node);
+   PV.MiniPy.Interp is the semantics of the translated subset; SrcRun.ext18 gives the torch calls
+   (dim, size, arange, unsqueeze, broadcasting -, clamp_min, pow, tril/triu, matmul) the
+   exact-rational meaning defined in PV.MiniTorch.Ops.  The theorems below are about that
+   regenerated term, for EVERY reward tensor (any shape, any rationals), discount and layout. *)
+From PV Require MiniPy.Syntax MiniPy.Interp MiniTorch.Ops MiniTorch.Value Gen.C18Src C18.SrcRun C18.Tie.
+
+(* whenever the model returns a tensor, running the source text returns exactly that tensor
+   (same shape, every entry the same rational) *)
+Theorem c18_source_return_is_model : forall r g bf out,
+  time_distributed_return r g bf = Ok out ->
+  exists st,
+    Interp.run SrcRun.ext18 C18Src.tdr_body (SrcRun.return_vars r g bf)
+    = Interp.Ok (SrcRun.enc_tensor out) st.
+Proof. exact Tie.return_tie_ok. Qed.
+Print Assumptions c18_source_return_is_model.
+
+(* an input that is not two-dimensional: the source raises RuntimeError, before anything else *)
+Theorem c18_source_return_raises : forall r g bf,
+  length (shape r) <> 2%nat ->
+  Interp.run SrcRun.ext18 C18Src.tdr_body (SrcRun.return_vars r g bf)
+  = Interp.Exc SrcRun.runtime_error (Interp.mkState (SrcRun.return_vars r g bf) []).
+Proof. exact Tie.run_not_matrix. Qed.
+Print Assumptions c18_source_return_raises.
+
+(* both at once, in the executable form the harness evaluates on the cases of every run:
+   the interpreted source IS the model, outcome for outcome *)
+Theorem c18_source_return_refines_model : forall r g bf,
+  SrcRun.src_return r g bf = Some (time_distributed_return r g bf).
+Proof. exact Tie.src_return_tie. Qed.
+Print Assumptions c18_source_return_refines_model.
+
+Theorem c18_source_return_check_is_check : forall r g bf tol impl,
+  SrcRun.src_return_check r g bf tol impl = check_return r g bf tol impl.
+Proof. exact Tie.src_return_check_is_check. Qed.
+Print Assumptions c18_source_return_check_is_check.
+
+(* composed with c18_return_recursion: a statement purely about the interpreted source -
+   on a T x N (or N x T, batch_first) reward matrix the source returns a tensor of the same shape
+   whose entries satisfy R_t = r_t + gamma * R_(t+1), R_T = 0, for every gamma *)
+Theorem c18_source_return_recursion : forall r g (bf : bool) T N,
+  shape r = (if bf then [N; T] else [T; N]) ->
+  exists out st,
+    Interp.run SrcRun.ext18 C18Src.tdr_body (SrcRun.return_vars r g bf)
+      = Interp.Ok (SrcRun.enc_tensor out) st /\
+    shape out = shape r /\
+    forall t n, (t < T)%nat -> (n < N)%nat ->
+      at2 bf out t n == at2 bf r t n + g * (if (S t <? T)%nat then at2 bf out (S t) n else 0).
+Proof. exact Tie.source_return_recursion. Qed.
+Print Assumptions c18_source_return_recursion.
+
+(* ... hence what the source returns is THE discounted return of every reward column *)
+Theorem c18_source_return_eq_spec : forall r g (bf : bool) T N,
+  shape r = (if bf then [N; T] else [T; N]) ->
+  exists out st,
+    Interp.run SrcRun.ext18 C18Src.tdr_body (SrcRun.return_vars r g bf)
+      = Interp.Ok (SrcRun.enc_tensor out) st /\
+    forall t n, (t < T)%nat -> (n < N)%nat ->
+      at2 bf out t n == nth t (ret_rec g (map (fun k => at2 bf r k n) (seq 0 T))) 0.
+Proof. exact Tie.source_return_eq_spec. Qed.
+Print Assumptions c18_source_return_eq_spec.
+
+(* non-vacuity: the interpreted source on the two concrete matrices of c18_return_nonvacuous *)
+Example c18_source_return_nonvacuous :
+  SrcRun.src_return (mkT [3; 2]%nat [1; 2; 3; 4; 5; 6]) (1 # 2) false =
+    Some (Ok (mkT [3; 2]%nat [15 # 4; 11 # 2; 11 # 2; 7; 5; 6])) /\
+  SrcRun.src_return (mkT [2; 3]%nat [1; 3; 5; 2; 4; 6]) 3 true =
+    Some (Ok (mkT [2; 3]%nat [55; 18; 5; 68; 22; 6])) /\
+  SrcRun.src_return (mkT [2; 3; 1]%nat [1; 3; 5; 2; 4; 6]) 3 true = Some (Err ERuntime).
+Proof. split; [vm_compute; reflexivity|]. split; vm_compute; reflexivity. Qed.
